@@ -148,6 +148,7 @@ type caseSpec struct {
 	BadResp   bool        `json:"bad_resp"`
 	MD        bool        `json:"md,omitempty"`  // handler also sets header and trailer metadata
 	Cut       *cutSpec    `json:"cut,omitempty"` // replay the recorded reply of this case cut short (see cut.go)
+	Opts      *optSpec    `json:"opts,omitempty"` // the caller passes these call options (see opts.go)
 }
 
 func (c caseSpec) String() string {
@@ -393,6 +394,9 @@ func (t *transports) get(name string) grpc.ClientConnInterface {
 		return cc
 	}
 	svc := theService()
+	if optSvcOverride != nil {
+		svc = optSvcOverride
+	}
 	var cc grpc.ClientConnInterface
 	switch name {
 	case "inproc":
@@ -800,6 +804,18 @@ func main() {
 			}
 			os.Exit(0)
 		}
+		if c.Opts != nil {
+			r, obs := runOptCase(t, c)
+			v := judgeOpt(r, obs)
+			fmt.Printf("replay: case %s\n  call options: %s (one response = %d bytes, one request = %d bytes)\n  handler returns: %s after handing over %d response(s)\n  client observed: %s\n  verdict: %q %s\n",
+				c, c.Opts, respSize(c.Opts.Shape), reqSize(), errStr(r.err), r.pre, obs, v.Clause, v.FP)
+			t.close()
+			if v.Clause != "" {
+				fmt.Printf("VIOLATION property=C02 replay=%s\n", p)
+				os.Exit(1)
+			}
+			os.Exit(0)
+		}
 		rs, obs := runCase(t, c)
 		v := judge(rs, obs)
 		ref := refStatus(rs.ret)
@@ -849,6 +865,48 @@ func main() {
 				sampleWanted[sk] = true
 				sampleN[tr]++
 				samples = append(samples, map[string]interface{}{"case": c.String(), "handler_returned": errStr(rs.ret), "client": obs.String(), "verdict": v.Clause})
+			}
+			if v.Clause != "" {
+				clauseCount[v.FP]++
+				rep.Violation(v.FP, v.What, c)
+			}
+		}
+	}
+
+	// call options: the caller's own size limits (at, below, above the message sizes), alone and next to Header/Trailer/Peer
+	optEvals, optParity := 0, 0
+	optClasses := map[string]int{}
+	if thorough {
+		for _, c := range allOptCases("grpcgo") {
+			r, obs := runOptCase(t, c)
+			optParity++
+			if v := judgeOpt(r, obs); v.Clause != "" {
+				t.close()
+				inconclusive("call-option oracle disagrees with grpc-go (checker error, not a violation): %s\n  %s", v.FP, v.What)
+			}
+		}
+	}
+	for _, tr := range []string{"inproc", "http", "httpwire"} {
+		for _, c := range allOptCases(tr) {
+			r, obs := runOptCase(t, c)
+			evals++
+			optEvals++
+			perTransport[tr]++
+			if k := optNontrivialKey(r); k != "" {
+				distinct[k] = true
+			}
+			S, R := respSize(c.Opts.Shape), reqSize()
+			oc := "failure"
+			if obs.Success {
+				oc = "success"
+			}
+			optClasses[fmt.Sprintf("%s|maxrecv=%s|maxsend=%s|%s", family(tr), limClass(c.Opts.Recv, S), limClass(c.Opts.Send, R), oc)]++
+			v := judgeOpt(r, obs)
+			sk := "opts|" + tr + "|" + c.Kind + "|" + limClass(c.Opts.Recv, S)
+			if !sampleWanted[sk] && sampleN["opts"] < 8 && c.Opts.Shape == "three" && c.Opts.Recv != nil && c.Pos == "after" {
+				sampleWanted[sk] = true
+				sampleN["opts"]++
+				samples = append(samples, map[string]interface{}{"case": c.String(), "call_options": c.Opts.String(), "client": obs.String(), "verdict": v.Clause})
 			}
 			if v.Clause != "" {
 				clauseCount[v.FP]++
@@ -922,8 +980,11 @@ func main() {
 		"distinct_nontrivial": len(distinct),
 		"rule": "total enumeration of transport {inproc, http (recorder), httpwire (recorder + net/http wire writer/parser)} x kind {unary, cstream, sstream, bidi half-duplex} x outcome {nil, plain, context.Canceled, context.DeadlineExceeded, io.EOF, 2 wrapped statuses, status: 19 codes (0..17, 99) x 10 messages x 13 ordered detail lists of length 0..2} x position {before, [between,] after} x last response encodable/not (only where a response precedes the return). " +
 			"A case is non-trivial when the handler really returned a non-nil error or handed over an unencodable response, i.e. the error/trailer path of the transport ran; distinct by (transport, kind, outcome, responses handed over, encodable). " +
-			"Cut dimension (HTTP client): for 19 recorded genuine replies (unary ok/error; sstream and bidi with 0..2 responses, cstream; handler ok / NotFound with 2 details; header and trailer metadata) every proper prefix of the reply body x {clean io.EOF, io.ErrUnexpectedEOF} plus RoundTrip error before/after the request; every such case is non-trivial (it runs the client's truncation handling), distinct by (scenario, offset, ending).",
+			"Cut dimension (HTTP client): for 19 recorded genuine replies (unary ok/error; sstream and bidi with 0..2 responses, cstream; handler ok / NotFound with 2 details; header and trailer metadata) every proper prefix of the reply body x {clean io.EOF, io.ErrUnexpectedEOF} plus RoundTrip error before/after the request; every such case is non-trivial (it runs the client's truncation handling), distinct by (scenario, offset, ending). " +
+			"Call-option dimension (all three transports): kind x position x outcome {nil, NotFound with 2 details, plain error} x response shape {1, 3, 300 equal-sized elements of a repeated field} x {grpc.MaxCallRecvMsgSize(n) for every n in 0..S+1 (300 elements: 0, 1, first/last element boundary, S-1, S, S+1), grpc.MaxCallSendMsgSize(n) for n in {0, 1, element boundary, R-1, R, R+1}, three pairs of both} x {alone, next to grpc.Header+grpc.Trailer+grpc.Peer}; non-trivial when some limit is at or below a message size or the handler failed, distinct by (transport, kind, outcome class, position, option set).",
 		"cut_cases":              cutEvals,
+		"call_option_cases":      optEvals,
+		"call_option_classes":    optClasses,
 		"cut_classes":            cutClasses,
 		"per_transport":          perTransport,
 		"samples":                samples,
@@ -933,12 +994,14 @@ func main() {
 	if thorough {
 		cov["grpcgo_parity_cases"] = parity
 		cov["loopback_parity_cases"] = loop
+		cov["grpcgo_call_option_parity_cases"] = optParity
 	}
 	os.Exit(rep.Finish("exploration", cov, []string{
 		"client contexts are never cancelled and carry no deadline; cancellation races are C04's subject",
 		"HTTP runs on common.HandlerRT (handler on a recorder, response complete when RoundTrip returns); the httpwire flavour additionally serialises the response with http.Response.Write and parses it with http.ReadResponse, validated in the thorough tier against a real loopback net/http server",
 		"handlers follow the generated-code convention of returning the error of a failed SendMsg/RecvMsg",
 		"for a status whose message is not valid UTF-8 on an encoding transport only 'non-OK' is demanded",
+		"call options: a size limit that some request/response message exceeds entitles the client to fail the call with any non-OK error (grpc-go: ResourceExhausted) but never to report success without the complete response; a limit that no message exceeds must leave the outcome exactly the handler's status. Sizes are proto.Size of the message, as in grpc-go",
 		"cut replies: no cut is exempted. A unary OK reply carries Content-Length, so a real transport reports a short body itself; the canned body reader models that by ending with io.ErrUnexpectedEOF whenever fewer than Content-Length bytes arrive (only a unary reply without Content-Length cut inside the protobuf body would be undetectable at the HTTP layer, and the server never produces one). For a non-200 reply the status comes from the headers and the body text is irrelevant: the client must still report non-OK.",
 	}))
 }
